@@ -203,6 +203,9 @@ def strategy(tier):
         gen.cases(profiles=(1, 2, 5), short_bias=True, **common),
         gen.cases(profiles=(1, 5), games=('FO8', 'F7S8', 'PO', 'FT', 'FR',
                                           'FB', 'F2L3D'), **common),
+        # "pot-limit up to the pot" also when the house takes a rake
+        gen.cases(profiles=(1, 2, 5), games=('PO', 'PO', 'NT', 'FT'),
+                  **dict(common, rake=True)),
     )
 
 
